@@ -140,6 +140,12 @@ def shards(tier):
             for proto in XML:
                 # the class tree in a namespace of its own (the messages stay in the target namespace)
                 out.append({'pv': list(pv), 'd': d, 'proto': proto, 'tier': tier, 'ns': 'urn:vf:shapes'})
+            if len(pv) > 1:
+                # two applications over the SAME model classes, one polymorphic and one not, used one after the other in
+                # both orders: what one protocol instance learns about a class must not decide for another
+                for proto in XML + DICT:
+                    for share in ('poly-first', 'plain-first'):
+                        out.append({'pv': list(pv), 'd': d, 'proto': proto, 'tier': tier, 'share': share})
     return out
 
 
@@ -183,12 +189,17 @@ def run_shard(shard, only=None):
     fam = 'xml' if proto in XML else 'dict'
     tree_id = ''.join('-' if p is None else str(p) for p in pv)
     warms = [None] + [x for x in descs if x != D]
-    for poly, warm in itertools.product((True, False), warms):
+    share = shard.get('share')
+    polys = (True, False) if share != 'plain-first' else (False, True)
+    if share:
+        warms = [None]
+        shared_b = spec.build(program(pv, d, None, shard.get('ns')))
+    for poly, warm in itertools.product(polys, warms):
         prog = program(pv, d, warm, shard.get('ns'))
         if fam == 'xml':
-            h = harness.XmlHarness(prog, proto, None, in_kw={'polymorphic': poly}, out_kw={'polymorphic': poly})
+            h = harness.XmlHarness(prog, proto, None, in_kw={'polymorphic': poly}, out_kw={'polymorphic': poly}, built=shared_b if share else None)
         else:
-            h = harness.DictHarness(prog, proto, None, ignore_wrappers=False, polymorphic=poly)
+            h = harness.DictHarness(prog, proto, None, ignore_wrappers=False, polymorphic=poly, built=shared_b if share else None)
         res['cov']['programs'] += 1
         b = h.b
         if warm is not None:
@@ -234,7 +245,8 @@ def run_shard(shard, only=None):
                 continue
             substituted = rlabel.replace('+', '') != D and any(x != D for x in rlabel.split('+'))
             sitebase = '%s|poly=%s|%s|%s%s%s' % (proto, 'on' if poly else 'off', pos, 'subclass' if substituted else 'same', '|after-subclass-call' if warm else '',
-                                                 '|client-prefixes' if scheme == 'adversarial' else '|bin-keys' if scheme == 'bin-keys' else '')
+                                                 ('|client-prefixes' if scheme == 'adversarial' else '|bin-keys' if scheme == 'bin-keys' else '') + ('|classes-shared-with-a-%s-application-used-before' % (
+                                                     'plain' if poly else 'polymorphic') if share and poly != polys[0] else ''))
             casedoc = {'shard': shard, 'only': key}
 
             def V(kind, detail, what, route='server'):
